@@ -479,8 +479,8 @@ def _builder_models(ctx: Ctx) -> int:
             continue
         sites = []
         for c in walk_local(f.node):
-            if isinstance(c, ast.Call) and call_name(c) in bclasses and isinstance(c.func, ast.Name) and len(c.args) == 1:
-                a0 = c.args[0]
+            if isinstance(c, ast.Call) and call_name(c) in bclasses and isinstance(c.func, (ast.Name, ast.Attribute)) and len(c.args) + len(c.keywords) == 1:
+                a0 = c.args[0] if c.args else c.keywords[0].value
                 if isinstance(a0, ast.Name) and a0.id in f.params and a0.id != "self":
                     sites.append((c, call_name(c), a0.id))
                 elif is_self_attr(a0) and f.params and f.params[0] == "self" and f.cls is not None \
@@ -495,8 +495,8 @@ def _builder_models(ctx: Ctx) -> int:
 
             def call_model(it, c_, env, args, kwargs):
                 nm = call_name(c_)
-                if nm in bclasses and isinstance(c_.func, ast.Name):
-                    return Obj("budget:" + nm, {"args": list(args), "kwargs": dict(kwargs)})
+                if nm in bclasses and isinstance(c_.func, (ast.Name, ast.Attribute)):
+                    return Obj("budget:" + nm, {"args": list(args) + list(kwargs.values()), "kwargs": {}})
                 return None
 
             def contains(v, cls, val, depth=0) -> bool:
